@@ -50,6 +50,15 @@ func (r *CopyReader) Read() error {
 reader:
 	for {
 		typed, _, err := r.ReadTypedMsg()
+		if exceeded, has := buffer.UnwrapMessageSizeExceeded(err); has {
+			// NOTE: the oversized message has to be consumed and discarded,
+			// its body would otherwise be interpreted as protocol messages.
+			serr := r.Slurp(exceeded.Size)
+			if serr != nil {
+				return serr
+			}
+		}
+
 		if err != nil {
 			return err
 		}
